@@ -10,7 +10,7 @@ CALL_VARIANTS = True   # every whitelisted persim call is repeated with its arra
 PROPERTY = "C04"
 TOL = 1e-7
 RULE = (
-    "configuration product: 2 regions (one asymmetric, 2x3 pixels per unit) x pixel size {1, 0.5} x 19 "
+    "configuration product: 2 regions (one asymmetric, 2x3 pixels per unit) x pixel size {1, 0.5} x 22 "
     "kernels (Gaussian: scalar variance, isotropic matrix, axis-aligned, correlated with r in {0.2,-0.5, "
     "0.74,0.76,-0.9,0.93,-0.95,0.99}; uniform box x2; a user kernel) x 7 weights (persistence n=1,2; "
     "linear_ramp x2; a user weight; two user weights that return one of their argument arrays) x skew on/off; diagrams: each of 16 points (inside, on a pixel "
@@ -32,7 +32,9 @@ KERNELS = ([("gauss_scalar", 0.3), ("gauss_iso", 0.5), ("gauss_diag", 0.2, 0.8),
             ("gauss_scalar", 0.01), ("gauss_iso", 0.0025), ("gauss_diag", 0.01, 0.0004), ("gauss_corr", 0.0004, 0.0016, 0.93),
             ("gauss_corr", 0.01, 0.0025, -0.95)]
            + [("gauss_corr", 0.5, 0.2, r) for r in CORR]
-           + [("uniform", 1.0, 1.0), ("uniform", 0.6, 1.7), ("user", 0.5)])
+           + [("uniform", 1.0, 1.0), ("uniform", 0.6, 1.7), ("user", 0.5)]
+           # the scalar variance given as a NumPy scalar of another type, or as a 0-d array
+           + [("gauss_scalar", np.float32(0.25)), ("gauss_scalar", np.int64(1)), ("gauss_scalar", np.array(0.3))])
 WEIGHTS = [("persistence", 1.0), ("persistence", 2.0), ("linear_ramp", 0.0, 1.0, 0.0, 1.0),
            ("linear_ramp", 0.5, 2.0, 0.5, 1.5), ("user", 2.0),
            # user weights that RETURN THEIR ARGUMENT (no new array): the weights then share memory with whatever the
@@ -103,7 +105,7 @@ def imager_kwargs(kernel, weight):
 def oracle_kernel(kernel):
     k = kernel[0]
     if k in ("gauss_scalar", "gauss_iso"):
-        return ("gauss", kernel[1], kernel[1], 0.0)
+        return ("gauss", float(kernel[1]), float(kernel[1]), 0.0)
     if k == "gauss_diag":
         return ("gauss", kernel[1], kernel[2], 0.0)
     if k == "gauss_corr":
